@@ -125,7 +125,7 @@ def gen_params(rng, fn, data):
         a, b = ts[0] + rng.pick((-5, 0, 5)), ts[-1] + rng.pick((-5, 0, 5))
         p["valid_span"] = [wl_iso(min(a, b)), wl_iso(max(a, b))]
         p["dtype"] = "datetime64[ns]"
-    if fn == "climatology_test" and rng.chance(0.4):
+    if fn == "climatology_test" and rng.chance(0.5):
         p["__as_object__"] = True
     if fn in ("gross_range_test",) and rng.chance(0.3):
         p["__tuples__"] = True
@@ -142,8 +142,13 @@ def generate(rng, tier="quick"):
     ops = []
     calls = []
     names = sorted(FUNCS)
+    # swarm: most histories use a small random subset of the functions, so that one function is
+    # called many times with shared parameter objects and near-duplicate inputs
+    k = rng.weighted([(1, 30), (2, 20), (3, 15), (len(names), 35)])
+    names = sorted(rng.sample(names, k))
+    mix = rng.pick(([("call", 6), ("repeat", 2), ("same_params", 2)], [("call", 3), ("repeat", 2), ("same_params", 5)]))
     for _ in range(rng.randint(1, 30 if tier == "thorough" else 14)):
-        kind = rng.weighted([("call", 6), ("repeat", 2), ("same_params", 2)])
+        kind = rng.weighted(mix)
         dirty = {"pattern": rng.weighted([("off", 1), ("flag", 5), ("ff", 2)]), "byte": rng.pick((1, 2, 3, 4, 9, 0, 255))}
         if kind == "call" or not calls:
             fn = rng.weighted([(f, WEIGHTS[f]) for f in names])
